@@ -55,9 +55,10 @@ const (
 )
 
 type sessSpec struct {
-	w   [2][]int // write sizes: [0] client->server, [1] server->client
-	rd  [2][]int // read size cycle of the receiver of direction d
-	idx int
+	w     [2][]int         // write sizes: [0] client->server, [1] server->client
+	rd    [2][]int         // read size cycle of the receiver of direction d
+	stall [2]time.Duration // the receiver of direction d does not read for this long (virtual time) after it got the session
+	idx   int
 }
 
 type scen struct {
@@ -315,6 +316,44 @@ func genScenario(g *vh.Rng, i int, thorough bool) scen {
 	return sc
 }
 
+// genBacklog: a slow reader.  One session carries [count] one-segment writes of 1..8 bytes in direction d while
+// the receiving application does not read for [stall] of virtual time (recvQueue holds segmentTreeCapacity = 4096
+// segments, recvChan 256 more; beyond that the session's input loop, then the underlay's event loop, must WAIT -
+// TCP has no retransmission, so anything not handed on is lost).  With [second], another session shares the
+// underlay and keeps writing both ways: it is blocked behind the stalled one (head of line) and must still be
+// delivered completely once the slow reader resumes.
+func genBacklog(g *vh.Rng, k int, count int, stall time.Duration, d int, second bool) scen {
+	var sc scen
+	if k%3 == 1 {
+		sc.pat[0] = mkPattern(g, 1+g.Intn(4), 7, 0, false, -1, int32(g.Intn(1000)))
+		sc.pat[1] = mkPattern(g, 1+g.Intn(4), 0, 7, false, -1, int32(g.Intn(1000)))
+	}
+	sc.mux = 1000 // share the underlay
+	sc.chunker[0], sc.chunker[1] = []int{0, 2, 0}[k%3], []int{0, 0, 2}[k%3]
+	sc.chunkArg = 70000
+	var sp sessSpec
+	sp.w[0], sp.w[1] = []int{1}, nil
+	for i := 0; i < count; i++ {
+		sp.w[d] = append(sp.w[d], 1+g.Intn(8))
+	}
+	if d == 0 {
+		sp.w[0] = sp.w[0][1:]
+	}
+	sp.rd[0], sp.rd[1] = []int{65536, 4096}, []int{65536, 333}
+	sp.stall[d] = stall
+	sc.sess = append(sc.sess, sp)
+	if second {
+		var s2 sessSpec
+		s2.idx = 1
+		s2.w[0] = []int{100, 2000, 40000, 7}
+		s2.w[1] = []int{5, 33000, 1}
+		s2.rd[0], s2.rd[1] = []int{4096}, []int{1000, 65536}
+		sc.sess = append(sc.sess, s2)
+	}
+	sc.name = fmt.Sprintf("backlog%d-n%d-stall%dms-dir%d-second%v", k, count, stall.Milliseconds(), d, second)
+	return sc
+}
+
 type idConn interface{ ToSessionInfo() *pb.SessionInfo }
 
 func connID(c net.Conn) uint32 {
@@ -371,6 +410,9 @@ func runScenario(r *vh.Run, sc scen, g *vh.Rng) (runs []*sessRun, events []simne
 		defer wg.Done()
 		want := sum(sr.spec.w[d])
 		cyc := sr.spec.rd[d]
+		if sr.spec.stall[d] > 0 {
+			time.Sleep(sr.spec.stall[d]) // a slow application: the peer's segments pile up in recvQueue / recvChan / the socket
+		}
 		buf := make([]byte, 65536+8)
 		timeouts := 0
 		for i := 0; len(sr.got[d]) < want; i++ {
@@ -806,9 +848,37 @@ func main() {
 	}
 	totalBytes := 0
 	sessPerUnderlay := map[int]int{}
-	for i := 0; i < nscen; i++ {
+	// slow-reader backlog scenarios (after the ordinary ones)
+	type bl struct {
+		count  int
+		stall  time.Duration
+		d      int
+		second bool
+	}
+	var backlog []bl
+	if r.Thorough() {
+		k := 0
+		for _, c := range []int{4095, 4096, 4097, 4104, 4400, 6000} {
+			for _, st := range []time.Duration{time.Second, 2500 * time.Millisecond, 5 * time.Second, 30 * time.Second} {
+				backlog = append(backlog, bl{c, st, k % 2, k%3 == 0})
+				backlog = append(backlog, bl{c, st, 1 - k%2, k%3 == 1})
+				k++
+			}
+		}
+	} else {
+		backlog = []bl{{4104, 2500 * time.Millisecond, 0, false}, {4097, 5 * time.Second, 1, false}, {4400, 30 * time.Second, 1, true},
+			{6000, 5 * time.Second, 0, true}, {4096, 2500 * time.Millisecond, 0, false}, {4095, time.Second, 1, true}}
+	}
+	for i := 0; i < nscen+len(backlog); i++ {
 		g := r.Rng.Fork()
-		sc := genScenario(g, i, r.Thorough())
+		var sc scen
+		if i < nscen {
+			sc = genScenario(g, i, r.Thorough())
+		} else {
+			b := backlog[i-nscen]
+			sc = genBacklog(g, i-nscen, b.count, b.stall, b.d, b.second)
+			r.Count("backlog-scenario")
+		}
 		runs, events, chunks, fatal := runScenario(r, sc, g)
 		desc := map[string]interface{}{"scenario": sc.name, "index": i, "seed": r.Seed}
 		runtime.GC()
